@@ -211,6 +211,22 @@ Theorem C31_leaf_tag_compare : forall fdisp tsdisp tag op cv e,
 Proof. exact leaf_tag_compare. Qed.
 Print Assumptions C31_leaf_tag_compare.
 
+(* a term without a field name: one of the five default fields holds a string in which the term occurs between
+   two word boundaries (wb = exactly one side is a word byte; gmatch: every `*` a run without newline) *)
+Theorem C31_leaf_word_match : forall w s,
+  word_match (pat_of w) s = true <->
+  exists pre mid post, s = pre ++ mid ++ post /\ gmatch w mid /\
+                       wb (last_or None pre) (mid ++ post) = true /\
+                       wb (last_or (last_or None pre) mid) post = true.
+Proof. exact word_match_correct. Qed.
+Print Assumptions C31_leaf_word_match.
+
+Theorem C31_leaf_default_term : forall fdisp tsdisp s v e,
+  s_equals fdisp tsdisp v e (FDefault s) = true <->
+  exists p b, parse_value_path s = PPOk p /\ get e p = Some (VBytes b) /\ word_match (pat_of v) b = true.
+Proof. exact leaf_default_term. Qed.
+Print Assumptions C31_leaf_default_term.
+
 (* --- the two departures of the implementation from the specification (known findings) --- *)
 
 (* C31-exists-tags: `_exists_:tags` is false on every event (the closure compares each element of the
